@@ -10,7 +10,7 @@
    in range) and (time, seg id) pairs may repeat.  If the source changes its behaviour, the
    regenerated definition changes and the theorem stops compiling. *)
 From Coq Require Import ZArith List Bool Lia Arith.
-From FT Require Import Model.NpRt Model.LabelUtils Model.Relabel Proofs.LabelUtilsTie.
+From FT Require Import Model.NpRt Model.LabelUtils Model.Relabel Proofs.NpRtLemmas.
 From FT Require Gen.Relabel_gen.
 Import ListNotations.
 Open Scope Z_scope.
